@@ -4,9 +4,11 @@
    concurrent attempts to create one name yield a single store; removing a store deletes all of
    it, so a new store of that name starts empty with the new options.
 
-   Result on the unchanged tree: the first two parts are REFUTED by the faithful model and the
-   witnesses reproduce on the implementation (findings/C12.json); each is proved under the
-   hypothesis that excludes exactly the refuting pattern.  The third part is proved in full. *)
+   Result: the first and the third part are proved in full (the first since Transaction.rollback
+   removes the created stores in its addActivelyPersistedItem branch as well).  The second part is
+   REFUTED by the faithful model, the witness reproduces on the implementation
+   (findings/C12.json), and it is proved under the hypothesis that excludes exactly the refuting
+   pattern. *)
 From Coq Require Import List ZArith NArith Bool Lia.
 From SopVerif Require Import Gen.MaintConsts StoreCatalog StoreCatalogProofs.
 Import ListNotations.
@@ -14,35 +16,36 @@ Local Open Scope Z_scope.
 
 (* ------------------------------------------------------------------ abort *)
 
-(* Refuted: a transaction that created store n and whose last logged step is an actively persisted
-   item (IsValueDataActivelyPersisted: Add/Update log addActivelyPersistedItem = 99) takes the
-   early-return branch of Transaction.rollback, which never reaches the createStore clean-up. *)
-Theorem C12_abort_no_store_refuted :
-  exists c n o cs, sr_get c n = None /\
-    let '(c1, out) := new_btree c n o in
-    out = Created /\ sr_get (txn_rollback cs c1 [n]) n <> None.
-Proof. exists [], 1%N, 4, addActivelyPersistedItem. split; [reflexivity|]. split; [reflexivity|discriminate]. Qed.
-Print Assumptions C12_abort_no_store_refuted.
-
-(* Partial: for every catalog, name, options and every logger state other than 99 that a
-   transaction which created a store can be in (>= createStore), the roll back removes the store —
-   list entry, store info and folder — and leaves every other store exactly as it was. *)
-Theorem C12_abort_no_store_partial : forall c n o cs,
-  sr_get c n = None -> cs <> addActivelyPersistedItem -> createStore <= cs ->
+(* Full: for every catalog, name, options and every logger state a transaction that created a store
+   can be in when it is rolled back (from createStore on; this includes the pre-commit state
+   addActivelyPersistedItem = 99 of stores with actively persisted values, whose branch of
+   Transaction.rollback removes the created stores too), the roll back removes the store — list
+   entry, store info and folder — and leaves every other store exactly as it was. *)
+Theorem C12_abort_no_store : forall c n o cs,
+  sr_get c n = None -> createStore <= cs ->
   let c1 := fst (new_btree c n o) in
   snd (new_btree c n o) = Created /\
   sr_get (txn_rollback cs c1 [n]) n = None /\ count_name (txn_rollback cs c1 [n]) n = 0%nat /\
   (forall m, m <> n -> sr_get (txn_rollback cs c1 [n]) m = sr_get c m).
-Proof.
-  intros c n o cs Habs H99 Hcs. cbv zeta. rewrite (new_btree_creates c n o Habs). cbn [fst snd].
-  rewrite (rollback_removes_created cs _ n H99 Hcs).
-  split; [reflexivity|]. split; [apply sr_get_remove|]. split; [apply count_name_remove|].
-  intros m Hm. rewrite sr_get_remove_other by exact Hm. apply sr_get_app_other. cbn [fresh_store s_name]. exact Hm.
-Qed.
-Print Assumptions C12_abort_no_store_partial.
+Proof. exact abort_no_store. Qed.
+Print Assumptions C12_abort_no_store.
+
+(* in particular in the pre-commit state of an actively persisted item (the former refuting pattern) *)
+Theorem C12_abort_no_store_actively_persisted : forall c n o,
+  sr_get c n = None ->
+  sr_get (txn_rollback addActivelyPersistedItem (fst (new_btree c n o)) [n]) n = None.
+Proof. exact abort_no_store_state99. Qed.
+Print Assumptions C12_abort_no_store_actively_persisted.
+
+(* every way such a transaction can end without committing (explicit Rollback, failing NewBtree,
+   failing item operation, failing commit; with or without an actively persisted add) *)
+Theorem C12_abort_no_store_all_endings : forall actively_persisted_add phase,
+  phase <> 4%nat -> exists_after actively_persisted_add phase = false.
+Proof. exact exists_after_abort. Qed.
+Print Assumptions C12_abort_no_store_all_endings.
 
 (* Commits that fail after any number of conflict retry rounds: for every sequence of rounds of
-   phase1Commit's loop (conflict in any logger state from createStore on, with the merge of the
+   phase1Commit's loop (conflict in any logger state from createStore on — 99 included —, with the merge of the
    other stores succeeding or not; an error return from any such state; the loop running out), if
    the commit does not succeed the created store is gone and every other store is as before.
    (The partial rollback between retries runs the createStore clean-up too and rewinds the state to
@@ -59,7 +62,7 @@ Print Assumptions C12_abort_no_store_after_retries.
    found (maybe deleted by rollback?)").  Not a violation of C12 (the store is gone, the commit
    reports failure); recorded in design/C12.md. *)
 Theorem C12_creator_conflict_never_commits : forall s ok rest c n,
-  createStore <= s -> s <> addActivelyPersistedItem ->
+  createStore <= s ->
   snd (commit_loop (RoundConflict s ok :: rest) c [n]) = false.
 Proof. exact creator_conflict_never_commits. Qed.
 Print Assumptions C12_creator_conflict_never_commits.
@@ -132,7 +135,7 @@ Example C12_nonvacuous :
   let c := [mkStore 1 4 12 9; mkStore 2 8 3 1] in
   sr_get c 1 <> None /\ sr_get (sr_remove c 1) 1 = None /\ sr_get (sr_remove c 1) 2 = Some (mkStore 2 8 3 1) /\
   sr_get (fst (new_btree (sr_remove c 1) 1 16)) 1 = Some (mkStore 1 16 0 0) /\
-  exists_after true 0 = true /\ exists_after false 0 = false /\ exists_after true 3 = false /\
+  exists_after true 0 = false /\ exists_after false 0 = false /\ exists_after true 2 = false /\ exists_after true 4 = true /\
   commit_loop [RoundConflict commitUpdatedNodes true; RoundCommitted] (c ++ [fresh_store 7 4]) [7%N] = (c, false) /\
   commit_loop [RoundCommitted] (c ++ [fresh_store 7 4]) [7%N] = (c ++ [fresh_store 7 4], true).
 Proof. cbv zeta. repeat split; try reflexivity. discriminate. Qed.
